@@ -100,6 +100,12 @@ struct Inner {
     f_exit: bool,
     l_exit: bool,
     failwait: bool,
+    /// speculative grants: a committer waiting for its completion may be scheduled as soon as its batch has been
+    /// DEQUEUED (not only once the scheduler has seen the publisher pass `pub.completed`): on code that
+    /// completes the batch later the committer blocks and the watchdog takes the token back (imprecise run);
+    /// on code that acknowledges early it returns at once and the trace shows `ret` before the horizon moved
+    early: bool,
+    dequeued: HashSet<u64>,
     steals: u64,
     forced: u64,
     points: BTreeMap<&'static str, u64>,
@@ -141,6 +147,8 @@ fn sched() -> &'static Sched {
             f_exit: false,
             l_exit: false,
             failwait: true,
+            early: false,
+            dequeued: HashSet::new(),
             steals: 0,
             forced: 0,
             points: BTreeMap::new(),
@@ -163,7 +171,9 @@ impl Inner {
             // success and failure alike wait for the oneshot: the batch must have been dequeued and completed
             // (`failwait=0`: do not assume that a failed commit waits — used when the translator could not
             // confirm that shape in the sources)
-            "commit.published" => (a.failed && !self.failwait) || self.done.contains(&a.my_seq),
+            "commit.published" => {
+                (a.failed && !self.failwait) || self.done.contains(&a.my_seq) || (self.early && self.dequeued.contains(&a.my_seq))
+            }
             "enq.spin" => self.clears > a.spin_clears,
             "apply.arena_full" | "close.tasks_stopped" => !self.actors.iter().any(|o| o.parked && !o.finished && o.last == "mem.insert"),
             "task.mem.wait" => self.f_permit,
@@ -249,7 +259,11 @@ impl Inner {
             }
             "stall.registered" => self.actors[i].reg_epoch = self.epoch,
             "stall.signal" => self.epoch += 1,
-            "pub.deq" => self.actors[i].deq_first = a + 1 - _b,
+            "pub.deq" => {
+                self.actors[i].deq_first = a + 1 - _b;
+                let f = self.actors[i].deq_first;
+                self.dequeued.insert(f);
+            }
             "pub.completed" => {
                 let f = self.actors[i].deq_first;
                 self.done.insert(f);
@@ -672,6 +686,8 @@ pub fn run(params: &str, threads: &str) -> String {
         g.f_exit = false;
         g.l_exit = false;
         g.failwait = geti("failwait", 1) != 0;
+        g.early = geti("early", 0) != 0;
+        g.dequeued.clear();
         g.steals = 0;
         g.forced = 0;
         g.points.clear();
